@@ -466,8 +466,18 @@ impl World {
         let result_state = self.pending_result_state(node, &gid);
         let (epoch, parent) = pre.clone().unwrap_or((0, String::new()));
         let r = EvRef(step.id, k);
-        let refs_proposals = desc.starts_with("autocommit")
-            || self.gview(node, g).and_then(|v| v.mls.as_ref()).map(|m| !m.pending_proposals.is_empty()).unwrap_or(false);
+        // does the staged commit cover proposals by reference? (read from the commit itself: a
+        // non-admin's self-update leaves the queue alone)
+        let by_ref = with_mdk!(self.nodes[node].mdk(), m => {
+            m.load_mls_group(&gid).ok().flatten().and_then(|grp| {
+                grp.pending_commit().map(|c| c.queued_proposals().any(|p| matches!(p.proposal_or_ref_type(), openmls::prelude::ProposalOrRefType::Reference)))
+            })
+        });
+        let refs_proposals = match by_ref {
+            Some(b) => b,
+            // already merged (auto-commit path): fall back to what the queue held before the call
+            None => desc.starts_with("autocommit") || self.gview(node, g).and_then(|v| v.mls.as_ref()).map(|m| !m.pending_proposals.is_empty()).unwrap_or(false),
+        };
         self.publish_event(PubEvent {
             origin: r,
             event,
